@@ -29,7 +29,12 @@ def _impl():
 
 def sentences():
     ent = st.sampled_from([16, 20, 24, 28, 32]).flatmap(lambda n: st.binary(min_size=n, max_size=n))
-    return st.builds(lambda e, sep: R39.encode(e).replace(" ", sep), ent, st.sampled_from([" ", " ", "　", " "]))
+    def shape(e, sep, style):
+        s = R39.encode(e)
+        s = {0: s, 1: s.upper(), 2: s.title(), 3: s.capitalize(), 4: s.swapcase(),
+             5: "".join(chr(ord(c) + 0xFEE0) if c != " " else c for c in s.upper())}[style]   # 5: full-width capitals
+        return s.replace(" ", sep)
+    return st.builds(shape, ent, st.sampled_from([" ", " ", "　", " "]), st.sampled_from([0, 0, 0, 1, 2, 3, 4, 5]))
 
 
 def texts():
@@ -221,6 +226,52 @@ def check_new(case, ctx):
         raise Violation("C03/new/not-reproducible", "from_mnemonic(w.mnemonic, w.password) != w")
 
 
+def gen_cli(tier):
+    ent = st.sampled_from([16, 20, 24, 28, 32]).flatmap(lambda n: st.binary(min_size=n, max_size=n))
+    return st.fixed_dictionaries({"cmd": st.sampled_from(["from-mnemonic", "from-entropy-hex", "from-bip39-seed", "from-master-xprv"]),
+                                  "entropy": ent, "pw": st.one_of(st.just(""), st.text(alphabet="abcXYZ019 é", min_size=1, max_size=8)),
+                                  "seed": st.binary(min_size=64, max_size=64), "testnet": st.booleans()})
+
+
+def check_cli(case, ctx):
+    """The command-line constructors hold the same master key material: the BIP44 account key printed by the CLI is
+    the reference derivation m/44'/c'/0' of the reference master."""
+    import json
+    from vlib import cli
+    cmd, pw, testnet = case["cmd"], case["pw"], case["testnet"]
+    sentence = R39.encode(case["entropy"])
+    if cmd == "from-mnemonic":
+        seed, argv = R39.seed(sentence, pw), ["from-mnemonic", sentence] + (["--password=" + pw] if pw else [])
+    elif cmd == "from-entropy-hex":
+        seed, argv = R39.seed(sentence, pw), ["from-entropy-hex", case["entropy"].hex()] + (["--password=" + pw] if pw else [])
+    elif cmd == "from-bip39-seed":
+        seed, argv = case["seed"], ["from-bip39-seed", case["seed"].hex()]
+    else:
+        seed = case["seed"]
+    try:
+        rm = R.master(seed)
+    except R.Invalid:
+        return
+    if cmd == "from-master-xprv":
+        argv = ["from-master-xprv", rm.xprv(R.TPRV if testnet else R.XPRV)]
+    argv = ["--interval", "0", "0"] + (["--testnet"] if testnet else []) + argv
+    r = cli.run_main(argv)
+    if r["status"] != 0:
+        ctx.count("cli-rejected")
+        return
+    try:
+        data = json.loads(r["out"])
+        got = data["BIP44"]["account_extended_keys"]["prv"]
+    except Exception as e:  # noqa: BLE001
+        raise Violation("C03/cli/output", "CLI %r printed no BIP44 account key: %r" % (argv[-2:], e))
+    H_ = 2 ** 31
+    racct = R.derive(rm, [44 + H_, (1 if testnet else 0) + H_, H_])
+    want = racct.xprv(R.TPRV if testnet else R.XPRV)
+    if got != want:
+        raise Violation("C03/cli/master-key-material[%s]" % cmd, "CLI %s (passphrase %r, testnet=%s): account key %s, the "
+                        "reference master gives %s" % (cmd, pw, testnet, got, want))
+
+
 def clauses():
     return [
         Clause("text", check_text,
@@ -244,6 +295,12 @@ def clauses():
                "flipping the network changes version bytes only",
                gen=gen_ctor, nontrivial=lambda c: c["pw"] != "" or c["testnet"],
                n={"quick": 600, "thorough": 30000}, shards={"quick": 16, "thorough": 16}),
+        Clause("cli-constructors", check_cli,
+               "the four command-line constructors (mnemonic / entropy hex with passphrase, seed hex, master xprv) in "
+               "process: the BIP44 account key they print is the reference derivation from the reference master",
+               gen=gen_cli, nontrivial=lambda c: c["pw"] != "" or c["testnet"],
+               classes=lambda c: [c["cmd"], "pw" if c["pw"] else "no-pw"],
+               n={"quick": 96, "thorough": 4000}, shards={"quick": 16, "thorough": 16}),
         Clause("new-wallet", check_new,
                "new_wallet(words, passphrase, network): valid sentence, master equals the reference derivation of the "
                "sentence it reports, from_mnemonic(w.mnemonic, w.password) reproduces it",
